@@ -100,8 +100,12 @@ static void drv_reset(void)
     int i;
     /* the interposer owns every block the library allocated */
     a_reset();
+#ifdef USE_INITIALIZER
+    { struct cstl_hash x = CSTL_HASH_INITIALIZER(struct el, hn); T[0] = x; T[1] = x; }
+#else
     cstl_hash_init(&T[0], offsetof(struct el, hn));
     cstl_hash_init(&T[1], offsetof(struct el, hn));
+#endif
     cur = 0;
     for (i = 0; i <= NE; i++) { pool[i].hn.key = keyof[i]; pool[i].hn.next = NULL; held[i] = 0; }
 }
